@@ -64,6 +64,10 @@ def gen_txn(r, noids, kind, aborts=True, **kw):
             op['end'] = 'abortN'
         elif x < 0.13:
             op['end'] = 'abortV'
+    if r.random() < 0.12:
+        # dependencies declared current (readCurrent), some of them stale
+        op['rc'] = [[r.randrange(noids), r.choice((None, None, 'stale'))]
+                    for _ in range(r.choice((1, 1, 2)))]
     return op
 
 
